@@ -192,6 +192,9 @@ def run(ctx):
         for _ in range(3):
             a_ = rng.randint(10, n_ - 50)
             Xg[a_:a_ + rng.randint(8, 30), rng.sample(range(p_), rng.randint(1, p_))] += rng.choice([4.0, -5.0, 7.0])
+        # a sensor drop-out: one column reports EXACTLY the same value over a stretch (its sample variance is 0: the variance floor applies to that column, and only to it)
+        a0_ = rng.randint(10, n_ - 40)
+        Xg[a0_:a0_ + 20, rng.randrange(p_)] = mu_ + 0.5
         dg = _MVCAPA(collective_saving=_GV16((mu_, var_)), point_saving=__import__('skchange.costs', fromlist=['L2Cost']).L2Cost(param=mu_), min_segment_length=2, max_segment_length=60).fit(Xg)
         yg = dg.predict(Xg)
         sa, sb = capa_penalty_factory("sparse")(n_, p_, 2, dg.collective_penalty_scale)
